@@ -154,6 +154,15 @@ def correspond(ctx):
                 for i in idx:
                     ctx.corr["disagreements"] += 1
                     ctx.problem("correspondence", "library and model disagree on %s, case %d" % (nm, i))
+                    # remember the case: the search evaluates the property predicates on exactly it
+                    rc = ctx.__dict__.setdefault("recheck", {"union_cases": [], "derived_cases": [], "geom_cases": []})
+                    if kind == "union":
+                        rc["union_cases"].append({k: cases[i][k] for k in ("grids", "swapped", "mode", "given")})
+                    elif kind == "geom":
+                        rc["geom_cases"].append({"vs": cases[i]["vs"], "els": cases[i]["els"]})
+                    elif kind == "derived":
+                        pool = [c for c in cases if "segments" in c] if nm == "grid_from_segments" else cases
+                        rc["derived_cases"].append({k: pool[i][k] for k in ("vs", "els", "dom")})
     if len(getattr(ctx, "disagree", [])) > 6:
         ctx.problem("correspondence", "... and %d more topology cases disagree" % (len(ctx.disagree) - 6))
     if res.get("lists") != "AttributeError":
@@ -181,19 +190,31 @@ def json_key(c):
 
 def search(ctx, strength):
     res = getattr(ctx, "impl", None)
-    if res is None or (strength == "thorough" and ctx.tier != "thorough"):
+    if res is not None:   # failing inputs of the run that fed the correspondence
+        ctx.search_info["evaluations"] = res["search_evals"]
+        for f in res["failures"]:
+            ctx.failure(f["signature"], f["what"], f["data"])
+    _recheck(ctx, strength)
+    if res is None or (strength == "thorough" and ctx.tier != "thorough" and not ctx.failures):
         res = ctx.run_impl("c11_impl.py", {"strength": strength, "parts": ["topo", "search"]}, timeout=3000)
-    if res is None:
-        return
-    ctx.search_info["evaluations"] = res["search_evals"]
-    for f in res["failures"]:
-        ctx.failure(f["signature"], f["what"], f["data"])
+        if res is None:
+            return
+        ctx.search_info["evaluations"] += res["search_evals"]
+        for f in res["failures"]:
+            ctx.failure(f["signature"], f["what"], f["data"])
+
+
+def _recheck(ctx, strength):
     # a correspondence disagreement on an accepted grid is itself a failing input of the implementation when the
     # numpy relations (same definitions as the theorems) fail on it: rerun the relations on those grids
     bad = getattr(ctx, "disagree", [])
-    if bad:
-        r2 = ctx.run_impl("c11_impl.py", {"strength": strength, "parts": ["recheck"],
-                                         "grids": [{"els": c["els"], "nv": c["nv"]} for c in bad[:20]]}, timeout=1200)
+    rc = getattr(ctx, "recheck", None)
+    if bad or rc:
+        payload = {"strength": strength, "parts": ["recheck"],
+                   "grids": [{"els": c["els"], "nv": c["nv"]} for c in bad[:20]]}
+        if rc:
+            payload.update({k: v[:10] for k, v in rc.items()})
+        r2 = ctx.run_impl("c11_impl.py", payload, timeout=1200)
         if r2:
             ctx.search_info["evaluations"] += r2["search_evals"]
             for f in r2["failures"]:
@@ -203,7 +224,14 @@ def search(ctx, strength):
 def replay(ctx):
     regen(ctx)
     data = ctx.replay.get("input") or {}
-    if "els" in data:
+    if "grids" in data and "mode" in data:
+        r2 = ctx.run_impl("c11_impl.py", {"strength": "thorough", "parts": ["recheck"], "union_cases": [
+            {k: data.get(k) for k in ("grids", "swapped", "mode", "given")}]}, timeout=1200)
+        if r2:
+            ctx.search_info["evaluations"] = r2["search_evals"]
+            for f in r2["failures"]:
+                ctx.failure(f["signature"], f["what"], f["data"])
+    elif "els" in data:
         r2 = ctx.run_impl("c11_impl.py", {"strength": "thorough", "parts": ["recheck"],
                                          "grids": [{"els": data["els"], "nv": data.get("nv")}]}, timeout=1200)
         if r2:
